@@ -86,7 +86,9 @@ impl World {
         let mut crash_list = vec![];
         let mut ecrash_list = vec![];
         for &i in &sweep {
-            for k in chosen_steps(&info[i].sites, thorough) {
+            // (every step only for tasks of ordinary size: the handful of modules that run for 10^5 steps
+            // before the pass gives up on their types would otherwise be most of the sweep)
+            for k in chosen_steps(&info[i].sites, thorough && info[i].steps < 1000) {
                 crash_list.push((i, k));
             }
             for j in 1..=info[i].ndiags {
